@@ -15,6 +15,7 @@ fn families(quick: bool) -> Vec<LmFamily> {
         Dom::Real(-2.0, 3.0),
         Dom::NonNegB(1.0, 4.0),
         Dom::Real(f64::NEG_INFINITY, 2.0),
+        Dom::Real(-1.0, f64::INFINITY),
         Dom::Bool,
         Dom::Int(-1, 2),
     ];
@@ -45,6 +46,20 @@ fn families(quick: bool) -> Vec<LmFamily> {
             senses: vec![Sense::Min],
             offsets: vec![0.0],
             named: false,
+        });
+        // half-bounded declarations: each adapter has to forward exactly one finite side
+        v.push(LmFamily {
+            name: "F7q-half-bounded",
+            n: 2,
+            m: 1,
+            doms: vec![Dom::Real(f64::NEG_INFINITY, 2.0), Dom::Real(-1.0, f64::INFINITY), Dom::NonNegB(1.0, f64::INFINITY), Dom::NonNeg],
+            coefs: vec![-1.0, 0.0, 2.0],
+            rhss: vec![-1.0, 2.0],
+            rels: vec![Rel::Le, Rel::Ge, Rel::Eq],
+            objs: vec![-1.0, 0.0, 1.0],
+            senses: vec![Sense::Min, Sense::Max],
+            offsets: vec![0.0],
+            named: true,
         });
     } else {
         v.push(LmFamily {
